@@ -557,8 +557,15 @@ class Config:
             temps = path.prog_temps
             path.prog_temps = saved
             if temps:
-                ids = {id(t) for t in temps}
-                path.pc = [p for p in path.pc if id(p) not in ids]
+                # remove exactly the entries that were appended (one occurrence per temp, from the end): a
+                # clause may evaluate to the very term object a branch condition already put on the pc
+                pc = list(path.pc)
+                for t in reversed(temps):
+                    for idx in range(len(pc) - 1, -1, -1):
+                        if pc[idx] is t:
+                            del pc[idx]
+                            break
+                path.pc = pc
         return out
 
     def as_clause_list(self, path, v):
